@@ -28,6 +28,13 @@ static size_t ledger_size(void *p, size_t dflt) {
 }
 static void ledger_del(void *p) { for (unsigned i = 0; i < 4; i++) if (g_blk_ptr[i] == p) g_blk_ptr[i] = 0; g_live_blocks--; }
 
+/* explicit initialisation of the stub's ghost state (statics are not reliably zeroed once loop contracts are applied) */
+static void alloc_reset(void) {
+  g_alloc_calls = g_dealloc_calls = g_realloc_calls = g_alloc_failures = 0;
+  g_live_blocks = 0; g_blk_next = 0;
+  for (unsigned i = 0; i < 4; i++) { g_blk_ptr[i] = 0; g_blk_size[i] = 0; }
+}
+
 void *Allocator__allocate(struct Allocator *self, size_t n) {
   CHECK(g_expected_allocator == 0 || self == g_expected_allocator, "allocate goes to the document's allocator");
   g_alloc_calls++;
@@ -47,6 +54,10 @@ void *Allocator__reallocate(struct Allocator *self, void *p, size_t n) {
   g_realloc_calls++;
   size_t old = ledger_size(p, (size_t)-1);
   if (g_alloc_may_fail && (p == 0 || n > old) && in_bool()) { g_alloc_failures++; return 0; } /* only a growing reallocate may fail */
+#ifdef ALLOC_SHRINK_IN_PLACE
+  if (p != 0 && n != 0 && n <= old) return p; /* a shrinking reallocate is modelled in place (cbmc's realloc with a symbolic smaller
+                                                 size loses the contents); it never fails, as C05 assumes */
+#endif
   void *q = realloc(p, n);
   __CPROVER_assume(q != 0);
   if (p) ledger_del(p);
